@@ -152,6 +152,13 @@ def mkproc(p):
         q = Forced(p['name']) if p.get('name') else Forced()
         q._vp_force = force
         return q
+    if p.get('setc'):
+        # a model that seeds with setCompartment(): at set-up no node has a compartment yet, which is exactly what setCompartment() is for
+        class Seeded(cls):
+            def changeInitialCompartment(self, n, c):
+                self.setCompartment(n, c)
+        Seeded.__name__ = cls.__name__; Seeded.__qualname__ = cls.__qualname__
+        return Seeded(p['name']) if p.get('name') else Seeded()
     return cls(p['name']) if p.get('name') else cls()
 
 
@@ -271,7 +278,7 @@ def gen_shipped(rnd, classes=None, dyn=None, oracles=('clock', 'member', 'loci')
         if ks:
             k = rnd.choice(ks); params[k] = params[k] * rnd.choice([4.0, 8.0])
     ps = sorted({v for k, v in params.items() if isinstance(v, float) and 0 < v < 1})
-    return dict(procs=[dict(cls=cls, name=None, params=params)], seq='bare', dyn=dyn, nodes=nodes,
+    return dict(procs=[dict(cls=cls, name=None, params=params, setc=(rnd.random() < 0.15 and cls != 'SEIR'))], seq='bare', dyn=dyn, nodes=nodes,
                 edges=edges, maxT=maxT or rnd.choice([3.0, 6.0, 12.0]), seed=rnd.random(), specials=ps, pspecial=0.15,
                 oracles=list(oracles), preattr=(rnd.randrange(1 << 30) if rnd.random() < 0.25 else None), strlabels=rnd.choice([False, False, False, False, False, False, False, True, True, 'big', 'digits']),
                 ptypes=rnd.choice([None, None, None, 'int', 'np']))
